@@ -326,6 +326,9 @@ def ctx? : Sexp → Option Ctx
   | .atom "plain" => some .plainThread
   | .atom "mt" => some .tokioMultiThread
   | .atom "ct" => some .tokioCurrentThread
+  | .atom "mtnd" => some .tokioMultiThreadNoDrivers
+  | .atom "mtndb" => some .tokioMultiThreadNoDriversBlockOn
+  | .atom "ctnd" => some .tokioCurrentThreadNoDrivers
   | _ => none
 
 def rxKind? : Sexp → Option RxKind
@@ -341,6 +344,7 @@ def pathName : BlockingPath → String
   | .condvar => "condvar"
   | .blockInPlace => "block_in_place"
   | .handleBlockOn => "handle_block_on"
+  | .blockInPlaceAsync => "block_in_place_async"
 
 /-- TIMEOUT in ms; `max` = Duration::MAX, `maxsecs` = u64::MAX seconds. -/
 def timeout? : Sexp → Option Nat
